@@ -35,6 +35,8 @@ impl Default for ProgOpts {
 
 #[derive(Clone, Debug)]
 pub struct Prog {
+    /// bytes placed in front of the program: the code area starts `entry_off` bytes below CODE_AT, the entry point stays CODE_AT
+    pub entry_off: u64,
     pub code: Vec<u8>,
     pub init_gpr: [u64; 16],
     pub init_flags: u64,
@@ -344,6 +346,24 @@ fn emit_block(a: &mut Asm, rng: &mut Rng, o: &ProgOpts, funcs: &[usize], n: u64,
                 a.bind(l);
                 a.shape.push('J');
             }
+            10 if o.indirect && !o.reserved.contains(&0) && depth < 2 => {
+                // the SAME indirect jump taken twice in a row with different targets:
+                //   mov rax,&T1 ; jmp J ; T1: mov rax,&T2 ; J: jmp rax ; nop ; T2:
+                let (t1, j, t2) = (a.label(), a.label(), a.label());
+                a.mov_imm64(0, 0);
+                let pos = a.b.len() - 8;
+                ABS.with(|v| v.borrow_mut().push((pos, t1)));
+                a.jmp8(j);
+                a.bind(t1);
+                a.mov_imm64(0, 0);
+                let pos = a.b.len() - 8;
+                ABS.with(|v| v.borrow_mut().push((pos, t2)));
+                a.bind(j);
+                a.b.extend_from_slice(&[0xff, 0xe0]);
+                a.b.push(0x90);
+                a.bind(t2);
+                a.shape.push('K');
+            }
             8 if o.syscalls => {
                 // mov eax, nr ; (rdi := 0 | data pointer) ; syscall
                 if !o.reserved.contains(&0) && !o.reserved.contains(&7) && rng.below(4) != 0 {
@@ -442,7 +462,7 @@ fn gen_prog_inner(rng: &mut Rng, o: &ProgOpts) -> Prog {
             1 => {
                 a.b.extend_from_slice(&[0x31, 0xc9, 0xf7, 0xf1]); // xor ecx,ecx ; div ecx
             }
-            2 => a.b.push(0xf4),                                                                // hlt (unsupported mnemonic)
+            2 => a.b.extend_from_slice(&[0x48, 0xc7, 0xc4, 0x10, 0x00, 0x00, 0x00, 0xc3]),      // mov rsp,0x10 ; ret (return slot unreadable)
             3 => a.b.extend_from_slice(&[0x48, 0xc7, 0x04, 0x25, 0x00, 0x00, 0x40, 0x00, 1, 0, 0, 0]), // store into the code area
             _ => a.b.extend_from_slice(&[0x0f, 0x0b]),                                          // ud2
         }
@@ -470,6 +490,11 @@ fn gen_prog_inner(rng: &mut Rng, o: &ProgOpts) -> Prog {
             // a function may call only later functions
             let nb = rng.range(0, 4);
             emit_block(&mut a, rng, &fopts, &funcs[i + 1..], nb, 1);
+            if o.fault_tail && rng.below(10) == 0 {
+                // a return whose slot cannot be read: the run ends in an error inside a function
+                a.b.extend_from_slice(&[0x48, 0xc7, 0xc4, 0x10, 0x00, 0x00, 0x00]);
+                a.shape.push('#');
+            }
             a.b.push(0xc3);
             a.shape.push('}');
         }
@@ -499,16 +524,26 @@ fn gen_prog_inner(rng: &mut Rng, o: &ProgOpts) -> Prog {
             init_flags |= b;
         }
     }
-    Prog { code, init_gpr, init_flags, shape, ends_with_ret, has_fault_tail }
+    let entry_off = if rng.below(3) == 0 { rng.range(1, 40) } else { 0 };
+    Prog { entry_off, code, init_gpr, init_flags, shape, ends_with_ret, has_fault_tail }
 }
 
 thread_local! {
     static ABS32: std::cell::RefCell<Vec<(usize, usize)>> = std::cell::RefCell::new(Vec::new());
 }
 
+impl Prog {
+    /// the bytes of the whole code area (padding in front of the entry point + program)
+    pub fn full_code(&self) -> Vec<u8> {
+        let mut v = vec![0x90u8; self.entry_off as usize];
+        v.extend_from_slice(&self.code);
+        v
+    }
+}
+
 /// Builds the machine for a program: code, data area (counter-stamped), stack, all registers written.
 pub fn build(p: &Prog, stack: bool) -> Result<Axecutor, String> {
-    let mut ax = Axecutor::new(&p.code, CODE_AT, CODE_AT).map_err(|e| err_first_line(&e))?;
+    let mut ax = Axecutor::new(&p.full_code(), CODE_AT - p.entry_off, CODE_AT).map_err(|e| err_first_line(&e))?;
     let data: Vec<u8> = (0..DATA_LEN).map(|i| (mix64(i) & 0xff) as u8).collect();
     ax.mem_init_area(DATA_AT, data).map_err(|e| err_first_line(&e))?;
     for (i, r) in GPR.iter().enumerate() {
